@@ -390,6 +390,11 @@ def x7_shims(text, log):
         return "vx_display_string(%s, %s)" % (m.group(1), m.group(2))
     text = re.sub(r"\b(table_name)\.fmt\((formatter)\)", disps, text)
 
+    def dispself(m):
+        log.add("X4:Display::fmt(self,..)->self.fmt(..)")
+        return "self.fmt(%s)" % m.group(1)
+    text = re.sub(r"\bfmt::Display::fmt\(\s*self\s*,\s*([a-z_][a-z0-9_]*)\s*\)", dispself, text)
+
     def disp(m):
         log.add("X7:vx_display")
         return "vx_display(%s, %s)" % (m.group(1), m.group(2))
